@@ -1,5 +1,5 @@
 //! C10: bus decode. After every write of a generated history the whole 64 KiB read image is digested per region.
-//! c10 type=T rom=R ram=M hist=a:v;... (a = 65536: let 64*v clocks pass) | d=<12 window digests> io=<hex of 0xFF00..0xFF7F> fd=<digest of fetch view> rd=<digest of reads at the same addresses> fe=<digest of the fetch view over the echo aliases>
+//! c10 type=T rom=R ram=M hx=<other header bytes set, offset:value;... or -> hist=a:v;... (a = 65536: let 64*v clocks pass) | d=<12 window digests> io=<hex of 0xFF00..0xFF7F> fd=<digest of fetch view> rd=<digest of reads at the same addresses> fe=<digest of the fetch view over the echo aliases>
 use crate::mem::{get_executable_memory_slice, memory_read_byte, memory_write_byte, MemoryAreas};
 use crate::roms::*;
 use crate::util::{hex, Opts, Rng};
@@ -132,8 +132,19 @@ pub fn run(_sub: &str, opts: &Opts, w: &mut dyn Write) {
         (0..3 + rng.below(6)).map(|_| (*rng.pick(&[0x0000u32, 0x2000, 0x2100, 0x3fff, 0x4000, 0x5000, 0x5fff, 0x6000, 0x7000, 0x7fff]),
           *rng.pick(&[0u8, 1, 2, 3, 5, 0x0a, 0x1f, 0x20, 0x21, 0x40, 0x60, 0x7f, 0xff]), false)).collect()
       } else { hist };
+      // one case in three: the header's other bytes are not the defaults (Color flag 0x80 / 0xC0, SGB flag, licensee,
+      // destination, version) - the memory map is a function of type, ROM size and RAM size alone; half of these start
+      // with a write to the Color-only VRAM bank register 0xFF4F followed by VRAM writes that must read back
+      let hx: Vec<(usize, u8)> = if rng.chance(1, 3) {
+        vec![(0x43, *rng.pick(&[0x80u8, 0xc0, 0x80, 0x00])), (0x46, *rng.pick(&[0u8, 3])), (0x4a, rng.u8() & 1), (0x4b, *rng.pick(&[0x33u8, 0x01])), (0x4c, rng.u8() & 3)]
+      } else { Vec::new() };
+      let hist: Vec<(u32, u8, bool)> = if !hx.is_empty() && rng.chance(1, 2) {
+        let mut h = vec![(0xff4fu32, rng.u8() | 1, false), (0x8000 + rng.below(0x2000) as u32, rng.u8(), false), (0x9fffu32, rng.u8(), true)];
+        h.extend(hist.iter().cloned());
+        h
+      } else { hist };
       if idx % nshards != shard { continue; }
-      let mut mem = mk_mem(t, r, m, &[]);
+      let mut mem = if hx.is_empty() { mk_mem(t, r, m, &[]) } else { crate::roms::mk_mem_x(t, r, m, &hx) };
       let p = &mut mem as *mut MemoryAreas;
       for (a, v, word) in hist.iter() {
         if *a == 65536 { mem.run_clock_cycles(crate::timing::ClockCycles::new(64 * *v as usize)); continue; }
@@ -153,7 +164,8 @@ pub fn run(_sub: &str, opts: &Opts, w: &mut dyn Write) {
         else { hs.push(format!("{}:{}", a, v)); }
       }
       let dss: Vec<String> = ds.iter().map(|d| d.to_string()).collect();
-      writeln!(w, "c10 type={} rom={} ram={} banks={} ramb={} hist={} | d={} io={} fd={} rd={} fe={}", t, r, m, rom_bank_count(r), header(t, r, m).get_ram_size_bytes(), hs.join(";"), dss.join(","), hex(&io), fd, rd, fe).unwrap();
+      let hxs: Vec<String> = hx.iter().map(|(o, v)| format!("{}:{}", o, v)).collect();
+      writeln!(w, "c10 type={} rom={} ram={} banks={} ramb={} hx={} hist={} | d={} io={} fd={} rd={} fe={}", t, r, m, rom_bank_count(r), header(t, r, m).get_ram_size_bytes(), if hxs.is_empty() { String::from("-") } else { hxs.join(";") }, hs.join(";"), dss.join(","), hex(&io), fd, rd, fe).unwrap();
     }
   }
 }
